@@ -422,7 +422,8 @@ def git_enum(gitdir, oids_hex, env=None):
 # ------------------------------------------------------------------ generators
 
 NAMES = [b"a", b"b", b"file.txt", b"src", b"lib", b"README", b"x y", b"d\xc3\xa9j\xc3\xa0", b"\xff\xfe", b"longer-name-0123456789",
-         b"z", b"m", b"Makefile", b"q'\"", b"t\tt"]
+         b"z", b"m", b"Makefile", b"q'\"", b"t\tt", b"100%_done", b"a%sb%d", b"%%", b"{0}", b"$HOME", b"a\\nb", b"*", b"?", b"[x]", b"~", b"-dash", b"#",
+         b"sp ", b"\x7f", b"\x01", b"^{x}", b"a:b", b"@{1}"]
 
 
 def gen_graph(rng, size="small", big_blobs=False):
@@ -447,7 +448,7 @@ def gen_graph(rng, size="small", big_blobs=False):
             name = rng.choice(NAMES) + (b"%d" % rng.randrange(3) if rng.random() < 0.5 else b"")
             k = rng.random()
             if k < 0.4 and blobs:
-                ents[name] = (rng.choice([0o100644, 0o100755, 0o100664]), rng.choice(blobs))
+                ents[name] = (rng.choice([0o100644, 0o100755, 0o100664, 0o100600, 0o100775]), rng.choice(blobs))
             elif k < 0.7 and trees:
                 ents[name] = (0o40000, rng.choice(trees))
             elif k < 0.8 and blobs:
